@@ -20,8 +20,9 @@ use tu_verif::refs::Scratch;
 use tu_verif::run::Run;
 use tu_verif::sched::{self, Config, Exec, Halt};
 
-const WORDS: [&str; 5] = ["ab cd e", "fg h ij", "kl mn", "o pq rs t", "uv w"];
-const NUM_PIPELINES: usize = 5;
+/// (every line has one long word: several character edits can land in one word)
+const WORDS: [&str; 5] = ["ab cd e abcdefghij", "fg h ij klmnopqrst", "kl mn uvwxyzabcd", "o pq rs t efghijklmn", "uv w opqrstuvwx"];
+const NUM_PIPELINES: usize = 6;
 
 /// (target, input, everything the task produced, item size)
 type Item = (String, String, Vec<i64>, usize);
@@ -74,6 +75,13 @@ fn pipeline(pre: usize, nfiles: usize) -> TrainPipelineConfig {
             preprocessing: PreprocessingConfig::Global(PreprocessingFnConfig::SpellingCorruption(Part::Input, 0.8, true, SpellingCorruptionMode::Artificial(0.3, 2.0, None))),
             task: TrainTaskConfig::ConditionalGeneration(byte_tok(), true, byte_tok(), true),
             postprocessing: PostprocessingConfig::Global(PostprocessingFnConfig::TokenMasking(byte_tok(), 0.3, 1, 0.5, "<unk>".to_string())),
+        },
+        5 => TrainPipelineConfig {
+            // heavy spelling corruption: every word, most characters -- chains of edits inside one word
+            preprocessing: PreprocessingConfig::Global(PreprocessingFnConfig::SpellingCorruption(Part::Input, 1.0, true, SpellingCorruptionMode::Artificial(0.9, 2.0, None))),
+            // (the whitespace-correction task refuses inputs whose letters differ from the target's)
+            task: TrainTaskConfig::ConditionalGeneration(byte_tok(), true, byte_tok(), true),
+            postprocessing: none_post(),
         },
         _ => TrainPipelineConfig {
             // a different preprocessing per source file: the source tag must travel with the item
@@ -277,6 +285,7 @@ fn check_grid_unit(run: &mut Run, scratch: &Scratch, u: &UnitDesc) {
     loader_runs += 1;
     if r.len() != total {
         viol!("reference-stream", cfgjson(&base), format!("single-process stream has {} items, the files have {total} lines", r.len()));
+        return; // nothing below makes sense without the reference stream
     }
     if r.iter().map(|x| &x.0).collect::<BTreeSet<_>>().len() != r.len() {
         viol!("reference-stream", cfgjson(&base), "an item appears twice in the single-process stream".to_string());
@@ -736,7 +745,7 @@ fn main() {
         return;
     }
     run.bounds.insert("grid_units".into(), json!(gus.len()));
-    run.bounds.insert("grid".into(), json!("file sets x {sequential, interleaved, weighted} x seeds x epochs {0,1} x 5 pipelines (none, whitespace corruption, switch, spelling corruption + conditional generation + token masking, per-source preprocessing); per unit: threads {0..3} x buffer {0,1,2} x 3 batch configs x (plain, sort, shuffle, sort+shuffle), skip {0,1,2} x limit {None,2,3,5} x world 1..3 x every rank x every fast_forward k"));
+    run.bounds.insert("grid".into(), json!("file sets x {sequential, interleaved, weighted} x seeds x epochs {0,1} x 6 pipelines (none, whitespace corruption, switch, spelling corruption + conditional generation + token masking, per-source preprocessing, heavy spelling corruption); per unit: threads {0..3} x buffer {0,1,2} x 3 batch configs x (plain, sort, shuffle, sort+shuffle), skip {0,1,2} x limit {None,2,3,5} x world 1..3 x every rank x every fast_forward k"));
     run.bounds.insert("scheduler_units".into(), json!(sus.iter().map(|u| u.json()).collect::<Vec<_>>()));
     run.extra.insert("rule".into(), json!("grid: every combination listed under bounds is executed on the real TrainLoader and compared with the single-process reference stream (a case = one loader configuration; a unit is non-trivial when its pipeline actually changed some input); scheduler: every interleaving of consumer, buffer thread and Pipe workers up to the preemption bound / every reachable state, batches compared with the sequential reference (non-trivial = at least one preemption)"));
     run.assumptions.push("seeds, epochs and file contents outside the enumerated sets are not covered; scheduler part: sequentially consistent exploration of the instrumented primitives".into());
